@@ -730,4 +730,102 @@ def c10(ctx):
                                 "property_violation": None if not pv else {"what": pv}, "signature": {}})
         if si < 2:
             ctx.report.sample({"family": "PA/truncation", "bytes": len(data), "frames": len(frames), "cuts": len(data) + 1})
+    out += c10_large_frames(ctx)
+    return out
+
+
+def long_frame_stream(width: int, nst: int, fsize: int):
+    """A TRIPLES stream written by pyjelly whose statement rows all have the same width (width + 8 bytes), in frames of fsize rows."""
+    from pyjelly.integrations.generic import generic_sink as gs_
+    from pyjelly.integrations.generic import serialize as gser
+    from pyjelly.options import LookupPreset, StreamParameters
+    from pyjelly.serialize.ioutils import write_delimited
+    from pyjelly.serialize.streams import SerializerOptions, TripleStream
+
+    sink = gs_.GenericStatementSink()
+    s_, p_ = gs_.IRI("http://e.org/s"), gs_.IRI("http://e.org/p")
+    for i in range(nst):
+        sink.add(gs_.Triple(s_, p_, gs_.Literal(f"r-{i:0{width - 2}d}")))
+    opts = SerializerOptions(frame_size=fsize, logical_type=1, params=StreamParameters(), lookup_preset=LookupPreset())
+    stream = TripleStream(encoder=gser.GenericSinkTermEncoder(lookup_preset=opts.lookup_preset), options=opts)
+    frames = list(gser.triples_stream_frames(stream, sink))
+    buf = io.BytesIO()
+    for f in frames:
+        write_delimited(f, buf)
+    data = buf.getvalue()
+    payloads = [f.SerializeToString(deterministic=True) for f in frames]
+    upto = [[fam_parse.event_tok(x) for x in fam_parse.gparse.parse_jelly_flat(io.BytesIO(fam_encode.delimited(payloads[: i + 1])))] for i in range(len(payloads))]
+    per_frame = [upto[0]] + [upto[i][len(upto[i - 1]):] for i in range(1, len(upto))]
+    bounds, starts, pos = [], [], 0
+    for p in payloads:
+        starts.append(pos + len(fam_encode.varint(len(p))))
+        pos += len(fam_encode.varint(len(p))) + len(p)
+        bounds.append(pos)
+    return data, payloads, per_frame, starts, bounds
+
+
+def long_frame_cut(data: bytes, per_frame: list, bounds: list, k: int, carrier: int, sched: list) -> tuple[str | None, str, list, int]:
+    """Read data[:k] through one kind of source; -> (what is wrong or None, end, last events, expected count)."""
+    complete = sum(1 for b in bounds if b <= k)
+    want = [e for fe in per_frame[:complete] for e in fe]
+    if carrier == 1:
+        tf = tempfile.TemporaryFile()
+        tf.write(data[:k])
+        tf.seek(0)
+        e, evs, _ = fam_parse.impl_flat("g", data[:k], src=tf)
+        tf.close()
+    elif carrier == 2:
+        e, evs, _ = fam_parse.impl_flat("g", data[:k], src=Dribble(data[:k], list(sched) + [10 ** 7]))
+    else:
+        e, evs, _ = fam_parse.impl_flat("g", data[:k])
+    pv = None
+    if evs != want:
+        if evs[: len(want)] != want[: len(evs)]:
+            pv = f"long frame, cut at {k} of {len(data)}: item {next(i for i, (a, b) in enumerate(zip(evs, want)) if a != b)} was never in the original at that position"
+        elif len(evs) < len(want):
+            pv = f"long frame, cut at {k} of {len(data)}: {len(want) - len(evs)} statements of fully delivered frames were lost"
+        else:
+            pv = f"long frame, cut at {k} of {len(data)}: {len(evs) - len(want)} items yielded from a frame that was not fully delivered"
+    elif e == "E" and k not in bounds and k != 0:
+        pv = f"long frame, cut at {k} of {len(data)} (inside a frame): the parser ended normally"
+    return pv, e, evs[-2:], len(want)
+
+
+def c10_large_frames(ctx) -> list:
+    """Frames longer than the reader's chunk (parse/ioutils.py reads a declared frame length in 64 KiB pieces): a stream whose
+    rows all have the same width -- so that bytes of an earlier piece, if they ever stood in for missing ones, would still parse as
+    rows -- written by pyjelly, cut inside each piece of the long frame (and at the piece boundaries), read through the three kinds
+    of source.  Oracle as for the short streams: exactly the statements of the frames wholly before the cut, then the end."""
+    out = []
+    r = ctx.rng
+    for si in range(ctx.n(1, 6)):
+        width = r.choice([24, 56])  # the literal: width + 8 bytes of framing = a row of 32 or 64 bytes
+        nst = r.choice([4500, 5200]) if width == 24 else r.choice([2300, 2700])
+        fsize = r.choice([nst, nst // 2 + 7])
+        data, payloads, per_frame, starts, bounds = long_frame_stream(width, nst, fsize)
+        cuts = set()
+        for st0, b in zip(starts, bounds):
+            n_pieces = (b - st0 + 65535) // 65536
+            for j in range(n_pieces):
+                lo, hi = st0 + 65536 * j, min(b, st0 + 65536 * (j + 1))
+                cuts.update(c for c in (lo, lo + 1, hi - 1) if c <= len(data))
+                cuts.update(r.randrange(lo, hi) for _ in range(ctx.n(4, 12)))
+                cuts.update(lo + (width + 8) * r.randrange(1, max(2, (hi - lo) // (width + 8))) for _ in range(ctx.n(3, 8)) if lo + (width + 8) < hi)
+        ctx.report.count(f"C10/long-frames: frames over 64 KiB={sum(1 for p_ in payloads if len(p_) > 65536)}")
+        for k in sorted(c for c in cuts if 0 <= c <= len(data)):
+            for carrier in range(3):
+                ctx.report.evaluations += 1
+                ctx.report.nontrivial.add(("long", si, k, carrier))
+                sched = [r.choice([1, 3, 4096, 70000]) for _ in range(6)]
+                ctx.report.count(f"C10/long-frames carrier={('BytesIO', 'file', 'non-seekable')[carrier]}")
+                pv, e, last, nwant = long_frame_cut(data, per_frame, bounds, k, carrier, sched)
+                if pv:
+                    out.append({"family": "PA", "ig": "g", "mode": "flat-long", "cut": k, "of": len(data), "corresponds": True,
+                                "gen": {"width": width, "statements": nst, "frame_size": fsize, "carrier": carrier, "sched": sched},
+                                "impl": [e] + last, "expected_count": nwant,
+                                "property_violation": {"what": pv}, "signature": {}})
+                    break
+            if len(out) >= 3:
+                return out
+    return out
     return out
